@@ -115,3 +115,50 @@ Proof.
   unfold py_addm, PyAddM_rec, CircularRecord_add, CircularRecord_radd.
   intros [H|H]; rewrite H; [reflexivity|]. destruct (is_CircularRecord x); reflexivity.
 Qed.
+
+(* ---------- C02 and C18 over the regenerated assembly -------------------------------------- *)
+
+Lemma rel_out_forget (R : list letter -> list letter -> Prop) x y :
+  rel_out R x y -> rel_out R (forget_used x) (forget_used y).
+Proof. destruct x, y; cbn; auto. intros (H1 & _ & H3). auto. Qed.
+
+(* the same plasmids spelled in another letter case, wrapped by the same classes *)
+Definition recased_ent (e e' : entity) : Prop :=
+  ent_cls e = ent_cls e' /\ same_codes (ent_seq_w e) (ent_seq_w e').
+
+Lemma recased_raw ms ms' : Forall2 recased_ent ms ms' -> Forall2 recased (map raw_of ms) (map raw_of ms').
+Proof. induction 1 as [|e e' ms ms' [H1 H2] H IH]; cbn; constructor; auto. split; auto. Qed.
+
+Theorem src_assemble_case vector vector' modules modules' :
+  good_ent vector -> good_ent vector' -> Forall good_ent modules -> Forall good_ent modules' ->
+  map ent_id modules = seq 0 (List.length modules) -> map ent_id modules' = seq 0 (List.length modules') ->
+  recased_ent vector vector' -> Forall2 recased_ent modules modules' ->
+  rel_out same_codes
+    (outcome_of (vector_assemble (S (S (List.length modules))) vector modules))
+    (outcome_of (vector_assemble (S (S (List.length modules'))) vector' modules')).
+Proof.
+  intros Gv Gv' Gm Gm' Hi Hi' [Hc Hs] Hms.
+  rewrite (vector_assemble_eq vector modules Gv Gm Hi), (vector_assemble_eq vector' modules' Gv' Gm' Hi').
+  apply rel_out_forget. rewrite <- Hc.
+  apply assemble_raw_case; [exact Hs|now apply recased_raw].
+Qed.
+
+(* the same plasmids read from other origins *)
+Definition rotated_ent (e e' : entity) : Prop :=
+  ent_cls e = ent_cls e' /\ exists k, ent_seq_w e' = rotr k (ent_seq_w e).
+
+Theorem src_assemble_rot vector vector' modules modules' :
+  good_ent vector -> good_ent vector' -> Forall good_ent modules -> Forall good_ent modules' ->
+  map ent_id modules = seq 0 (List.length modules) -> map ent_id modules' = seq 0 (List.length modules') ->
+  uniquely_typed (raw_of vector) -> Forall uniquely_typed (map raw_of modules) ->
+  rotated_ent vector vector' -> Forall2 rotated_ent modules modules' ->
+  outcome_of (vector_assemble (S (S (List.length modules'))) vector' modules')
+  = outcome_of (vector_assemble (S (S (List.length modules))) vector modules).
+Proof.
+  intros Gv Gv' Gm Gm' Hi Hi' Uv Um [Hc [kv Hv]] Hms.
+  rewrite (vector_assemble_eq vector modules Gv Gm Hi), (vector_assemble_eq vector' modules' Gv' Gm' Hi').
+  f_equal. rewrite <- Hc, Hv.
+  apply assemble_raw_rot; [exact Uv|exact Um|].
+  clear -Hms. induction Hms as [|e e' ms ms' [H1 [k H2]] H IH]; cbn; constructor; auto.
+  unfold rotated, raw_of. cbn. split; [exact H1|exists k; exact H2].
+Qed.
